@@ -155,8 +155,8 @@ def plan_for(case, rd):
     if case["fault"] == "short":
         return [rule(kind="read", act="shortrnd", prefix=rd.world, count="inf", proc="any")]
     if case["fault"] == "delay":
-        return [rule(kind="open", act="delay:300", prefix=rd.world, count="inf"),
-                rule(kind="read", act="delay:200", prefix=rd.world, count="inf")]
+        return [rule(kind="open", act="delay:300", prefix=rd.world, count=20000),
+                rule(kind="read", act="delay:200", prefix=rd.world, count=30000)]     # bounded: 6 s of injected delay at most
     if case["fault"] == "foreign":
         return [rule(kind="noatime", act="errno:EPERM", prefix=os.path.join(rd.world, case["roots"][case["seam_seed"] % len(case["roots"])]) if case["seam_seed"] % 3 else rd.world,
                      count="inf", proc="any")]
